@@ -297,6 +297,12 @@ func runC04(r *rec, idx int, seed int64) *hx.Result {
 	if res := accessorsAgree(r, &b, &f, qe, got); res != nil {
 		return res
 	}
+	// ---- no memory between parses: the genuine event, then the tampered copy again, then the genuine event again ---
+	// (what one event's parse learnt - e.g. that its hashes value is right - must not be believed of another event
+	// that merely carries the same value; the tampered copy was parsed first above, so both orders occur)
+	if res := historyFree(r, impl, orig, wire, qe, class); res != nil {
+		return res
+	}
 	// ---- identity and signatures ---------------------------------------------------------------------------------
 	if (f.ID == origID) != r.IDSame {
 		return fail(fmt.Sprintf("C04/id/%s:model-same=%v", class, r.IDSame),
@@ -337,6 +343,40 @@ func runC04(r *rec, idx int, seed int64) *hx.Result {
 				fmt.Sprintf("VerifyEventSignatures on the parsed event (room version %s, tampering %v, hash %s): %v", r.Ver, sorted(r.T), r.HM, verdict),
 				wantOK, verdict == nil)
 		}
+	}
+	return nil
+}
+
+// historyFree parses the untampered event, the tampered one a second time and the untampered one again, all in this
+// process: the tampered copy must come back exactly as at first, the genuine one both times alike and (unless it was
+// redacted before it was sent) unredacted.
+func historyFree(r *rec, impl gmsl.IRoomVersion, orig, wire []byte, first gmsl.PDU, class string) *hx.Result {
+	parse := func(b []byte) (gmsl.PDU, error) { return impl.NewEventFromUntrustedJSON(append([]byte(nil), b...)) }
+	o1, err := parse(orig)
+	if err != nil {
+		return fail("C04/history/genuine/parse-error", "NewEventFromUntrustedJSON refuses the untampered event: "+err.Error(), nil, string(orig))
+	}
+	if r.Pre != "RD" && o1.Redacted() {
+		return fail("C04/history/genuine/redacted", fmt.Sprintf("the untampered event comes back redacted when parsed after its tampered copy (room version %s, tampering %v, hash %s)", r.Ver, sorted(r.T), r.HM), false, true)
+	}
+	t2, err := parse(wire)
+	if err != nil {
+		return fail("C04/history/tampered/parse-error", "the tampered event is refused when parsed a second time: "+err.Error(), nil, string(wire))
+	}
+	if t2.Redacted() != r.Red {
+		return fail(fmt.Sprintf("C04/history/tampered-after-genuine/redacted-flag/%s:model=%v", class, r.Red),
+			fmt.Sprintf("Redacted() of the tampered event parsed AFTER the genuine event was parsed in the same process (room version %s, tampering %v, hash %s); parsed first it was %v",
+				r.Ver, sorted(r.T), r.HM, first.Redacted()), r.Red, t2.Redacted())
+	}
+	if !sameJSONBytes(first.JSON(), t2.JSON()) {
+		return fail("C04/history/tampered-after-genuine/json/"+class, "the tampered event parses to another event after the genuine event was parsed in the same process", string(first.JSON()), string(t2.JSON()))
+	}
+	o2, err := parse(orig)
+	if err != nil {
+		return fail("C04/history/genuine/parse-error", "the untampered event is refused when parsed again: "+err.Error(), nil, string(orig))
+	}
+	if o2.Redacted() != o1.Redacted() || !sameJSONBytes(o1.JSON(), o2.JSON()) {
+		return fail("C04/history/genuine/changed", "the untampered event parses differently the second time", string(o1.JSON()), string(o2.JSON()))
 	}
 	return nil
 }
